@@ -261,3 +261,53 @@ func runCorpus(repo, verifDir, prop string) map[string]any {
 	}
 	return map[string]any{"total": total, "detected": detected, "out_of_scope": oos, "skipped": skipped, "missed": missed}
 }
+
+// runPassCorpus applies every stored behaviour-preserving refactoring that concerns prop through an overlay and
+// reports how many the quick check accepts.
+func runPassCorpus(repo, verifDir, prop string) map[string]any {
+	var dirs []string
+	for _, base := range []string{"refactorings", "refactorings_free"} {
+		ds, _ := filepath.Glob(filepath.Join(verifDir, base, "*"))
+		dirs = append(dirs, ds...)
+	}
+	sort.Strings(dirs)
+	total, clean, skipped := 0, 0, 0
+	alarms := []string{}
+	for _, d := range dirs {
+		var meta struct {
+			Properties []string `json:"properties"`
+		}
+		b, err := os.ReadFile(filepath.Join(d, "meta.json"))
+		if err != nil {
+			continue
+		}
+		json.Unmarshal(b, &meta)
+		concerns := false
+		for _, p := range meta.Properties {
+			if p == prop {
+				concerns = true
+			}
+		}
+		if !concerns {
+			continue
+		}
+		total++
+		ov, err := overlayFromPatch(repo, filepath.Join(d, "patch.diff"))
+		if err != nil {
+			skipped++
+			continue
+		}
+		old := os.Stdout
+		null, _ := os.OpenFile(os.DevNull, os.O_WRONLY, 0)
+		os.Stdout = null
+		code := runCheck(repo, verifDir, CheckOpts{Prop: prop, Tier: "quick", TimeoutS: 20}, ov, false)
+		os.Stdout = old
+		null.Close()
+		if code == 0 {
+			clean++
+		} else {
+			alarms = append(alarms, filepath.Base(d))
+		}
+	}
+	return map[string]any{"total": total, "no_alarm": clean, "skipped": skipped, "false_alarms": alarms}
+}
